@@ -114,6 +114,22 @@ def run_unit(job):
     kind, qual, cls, prop, timeout_ms, extra = job
     if os.environ.get("PYVC_TEST_KILL_UNIT") == qual:       # self-test of the driver: this unit's worker dies abruptly
         os._exit(17)
+    # hard wall-clock limit per unit: a solver call that spins inside native code ignores its timeout and cannot be interrupted
+    # from Python (seen once: a worker at 100 % CPU for 20 minutes in a check that normally takes 10 s).  The worker then
+    # kills itself; run_jobs retries the unit in a fresh process and reports a checker error (exit 3) if it dies again.
+    import threading
+    limit = float(os.environ.get("PYVC_UNIT_LIMIT") or (3600 if os.environ.get("PYVC_TIER") == "thorough" else 900))
+    killer = threading.Timer(limit, os._exit, args=(78,))
+    killer.daemon = True
+    killer.start()
+    try:
+        return _run_unit(job)
+    finally:
+        killer.cancel()
+
+
+def _run_unit(job):
+    kind, qual, cls, prop, timeout_ms, extra = job
     table, reg = load_all()
     from pyvc import verify
     try:
@@ -170,7 +186,7 @@ def run_jobs(jobs, nproc):
     for i in pending:
         kind, qual, cls = jobs[i][0], jobs[i][1], jobs[i][2]
         results[i] = {"unit": qual, "qual": qual, "cls": cls, "kind": kind, "obligations": [], "unsupported": None,
-                      "vacuous": False, "error": "the worker process verifying this unit died repeatedly (solver crash or out of memory)"}
+                      "vacuous": False, "error": "the worker process verifying this unit died repeatedly (solver crash, out of memory, or the per-unit wall-clock limit)"}
     if deaths:
         print("note: %d unit result(s) were lost to dying worker processes and retried" % deaths)
     return results
